@@ -2011,3 +2011,5 @@ pub mod verif_c14;
 pub mod verif_c03;
 #[cfg(feature = "verif-hooks")]
 pub mod verif_c06;
+#[cfg(feature = "verif-hooks")]
+pub mod verif_c02;
